@@ -214,3 +214,48 @@ Fixpoint run_state (s : st) (ops : list op) : st :=
   | [] => s
   | o :: r => run_state (fst (step s o)) r
   end.
+
+(* ---- gateway side: what the gateway knows about the shard leaders
+   (pkg/ratelimiter/clientsets/clientsets.go: clientSets.sync, ClientFor, ShardIDFor) ---- *)
+Record gw := { g_n : Z; g_leaders : list (Z * string) }.   (* shardCount, leaderEndpoints *)
+
+Inductive gwop :=
+| GSync (n : Z) (eps : list (Z * string))   (* a server-info answer: ShardCount and (ShardID, Leader) in the order listed *)
+| GSyncFail                                 (* lookup / request / decoding failed: sync returns early *)
+| GClientFor (u : string).                  (* ClientFor(upstream): which server is addressed *)
+
+Inductive gwres := GNil | GErr | GTo (server : string).
+
+Definition gwres_eqb (a b : gwres) : bool :=
+  match a, b with
+  | GNil, GNil | GErr, GErr => true
+  | GTo x, GTo y => String.eqb x y
+  | _, _ => false
+  end.
+
+(* the loop body of sync: the endpoint is stored when it differs from the one on record ("" when none) *)
+Definition gw_set (acc : list (Z * string)) (p : Z * string) : list (Z * string) :=
+  let old := match zlookup (fst p) acc with Some l => l | None => EmptyString end in
+  if String.eqb old (snd p) then acc else zset (fst p) (snd p) acc.
+
+Definition gw_step (g : gw) (o : gwop) : gw * gwres :=
+  match o with
+  | GSync n eps => ({| g_n := n; g_leaders := fold_left gw_set eps (g_leaders g) |}, GNil)
+  | GSyncFail => (g, GNil)
+  | GClientFor u =>
+      match gw_shard_id u (g_n g) with
+      | None => (g, GErr)                                  (* shard count not synced *)
+      | Some sh => match zlookup sh (g_leaders g) with
+                   | Some l => (g, GTo l)
+                   | None => (g, GErr)                     (* server shard has no leader *)
+                   end
+      end
+  end.
+
+Definition gw_init : gw := {| g_n := 0; g_leaders := [] |}.
+
+Fixpoint gw_run (g : gw) (ops : list gwop) : list gwres :=
+  match ops with
+  | [] => []
+  | o :: r => let '(g', x) := gw_step g o in x :: gw_run g' r
+  end.
